@@ -168,6 +168,24 @@ func c20schema(r *rand.Rand) string {
 	if r.IntN(3) == 0 {
 		sb.WriteString("cfg: {level: *1 | int}\ncfg: level: 1\nuse: cfg.level\n")
 	}
+	// a comprehension whose guard reads the very field its body sets: the plain field is what makes the guard
+	// true, so it is not implied by the comprehension; before or after the plain field, top level or nested
+	if r.IntN(3) == 0 {
+		comp := "if gate.web.tls {\n\tgate: web: tls: true\n}\n"
+		plain := "gate: web: tls: true\n"
+		other := "gate: web: name: \"w\"\n"
+		parts := []string{comp, plain, other}
+		r.Shuffle(len(parts), func(i, j int) { parts[i], parts[j] = parts[j], parts[i] })
+		sb.WriteString(strings.Join(parts, ""))
+	}
+	if r.IntN(3) == 0 {
+		comp := "\tif on {\n\t\ton:    true\n\t\tlevel: 2\n\t}\n"
+		plain := "\ton: true\n"
+		other := "\tname: \"n\"\n\tlevel: 2\n"
+		parts := []string{comp, plain, other}
+		r.Shuffle(len(parts), func(i, j int) { parts[i], parts[j] = parts[j], parts[i] })
+		sb.WriteString("flags: {\n" + strings.Join(parts, "") + "}\n")
+	}
 	return sb.String()
 }
 
